@@ -115,7 +115,12 @@ def run(ctx):
              "2**-1", "a**-b", "a**-b**c", "-a**-b", "(a + b)*c", "a*(b + c)",
              "not (a and b)", "(a or b) and c", "a if b else (c, d)",
              "f(a if b else c, d)", "a[b if c else d]", "1e3 + a", "1.e2*a",
-             ".5*a", "10 // 3 % 2", "True and a", "False or a"]
+             ".5*a", "10 // 3 % 2", "True and a", "False or a",
+             "((a, b),)", "((a,),)", "((),)", "((a, b), c)", "(c, (a, b))",
+             "f(((a, b),))", "(a, b,)", "((a, b,),)",
+             # literal operands of prefix operators bind like any other operand
+             "-2**2", "-2**a", "a - -2**2", "-1.5**a", "b**-2**2", "~2**a",
+             "-2*a", "-2[a]", "+3**a", "not 1 == a"]
     for s in extra:
         compare(s, ("extra",))
     ctx.extra["skeletons_quick"] = n + len(extra)
